@@ -338,24 +338,35 @@ def put_expr(row, col, expr):
     return col
 
 
+REF_FORMS = ("plain", "last-saved")
+
+
+def ref_text(name, how):
+    return "${" + name + "}" if how == "plain" else "${last-saved#" + name + "}"
+
+
+def s_unknown_ref(form):
+    return [(i, c, how) for (i, c) in ref_sites(form) for how in REF_FORMS]
+
+
 def a_unknown_ref(form, site):
-    i, c = site
+    i, c, how = site
     f = clone(form)
-    put_expr(f["survey"][i], c, "${nosuch_q}")
-    return f, {"cites": ["${nosuch_q}"], "model": False}
+    put_expr(f["survey"][i], c, ref_text("nosuch_q", how))
+    return f, {"cites": [ref_text("nosuch_q", how)], "model": False}
 
 
 def s_ambiguous_ref(form):
     # 2, 3, 4, 5 … elements of the same name: every count >= 2 is ambiguous (not only "seen twice")
-    return [(i, c, k) for (i, c) in ref_sites(form) for k in (2, 3, 4, 5)]
+    return [(i, c, k, how) for (i, c) in ref_sites(form) for k in (2, 3, 4, 5) for how in REF_FORMS]
 
 
 def a_ambiguous_ref(form, site):
     """k questions `twin` in k different sections (an existing section if there is one, the root, and new
     groups), referenced from `site`"""
-    i, c, k = site
+    i, c, k, how = site
     f = clone(form)
-    put_expr(f["survey"][i], c, "${twin}")
+    put_expr(f["survey"][i], c, ref_text("twin", how))
     rows = f["survey"]
     placed = 0
     b = next((j for j, r in enumerate(rows) if is_begin(r)), None)
@@ -372,17 +383,17 @@ def a_ambiguous_ref(form, site):
                  {"type": f"end {kind}"}]
         placed += 1
         j += 1
-    return f, {"cites": ["${twin}"], "model": False}
+    return f, {"cites": [ref_text("twin", how)], "model": False}
 
 
 def s_ambiguous_mixed(form):
-    return [(p, k) for p in positions(form) for k in (2, 3, 4)]
+    return [(p, k, how) for p in positions(form) for k in (2, 3, 4) for how in REF_FORMS]
 
 
 def a_ambiguous_mixed(form, site):
     """the repeated name is carried by sections and questions alike (k elements named `twin` in total:
     a group named twin at the insertion point plus questions in new groups)"""
-    p, k = site
+    p, k, how = site
     f = clone(form)
     block = [{"type": "begin group", "name": "twin", "label": "G"}, {"type": "text", "name": fresh(f, "tq"), "label": "T"},
              {"type": "end group"}]
@@ -391,8 +402,8 @@ def a_ambiguous_mixed(form, site):
         g = fresh(f, "tw_g")
         f["survey"] += [{"type": "begin group", "name": g, "label": "G"}, {"type": "text", "name": "twin", "label": "T"},
                         {"type": "end group"}]
-    f["survey"].append({"type": "calculate", "name": fresh(f, "tc"), "calculation": "concat(${twin}, 'x')"})
-    return f, {"cites": ["${twin}"], "model": False}
+    f["survey"].append({"type": "calculate", "name": fresh(f, "tc"), "calculation": "concat(" + ref_text("twin", how) + ", 'x')"})
+    return f, {"cites": [ref_text("twin", how)], "model": False}
 
 
 MALFORMED = ["${a", "${a b}", "${${a}}", "${}", "${a}}${", "${ a }x${"]
@@ -563,6 +574,10 @@ PARAM_CASES = [
     ("select_one LIST", "seed=3", ["seed"], False),
     ("select_one LIST", "randomize=true seed=abc", ["seed"], False),
     ("select_multiple LIST", "foo=1", ["foo"], False),
+    ("select_one LIST", "value=name", ["value"], False),
+    ("select_multiple LIST", "label=title", ["label"], False),
+    ("rank LIST", "value=name label=title", ["label", "value"], False),
+    ("select_one LIST", "randomize=true value=name", ["value"], False),
     ("select_one_from_file f.csv", "value=1v", ["value"], True),
     ("select_one_from_file f.csv", "label=a*", ["label"], True),
     ("range", "start=a", ["start"], False),
@@ -932,6 +947,36 @@ def a_empty_section(form, site):
     return f, {"cites": [n], "model": True}
 
 
+def s_table_list_unlisted(form):
+    return [(p, v) for p in positions(form) for v in ("from-file", "from-repeat", "after-text")]
+
+
+def a_table_list_unlisted(form, site):
+    """the first select of a table-list group has no list on the choices sheet (from a file / from a repeat)"""
+    p, v = site
+    g = fresh(form, "tlu")
+    f = clone(form)
+    sel = {"type": "select_one_from_file %s.csv" % g, "name": g + "_s", "label": "S"}
+    block = [{"type": "begin group", "name": g, "label": "T", "appearance": "table-list"}]
+    if v == "from-repeat":
+        sel["type"] = "select_one ${%s_src}" % g
+        f["survey"] += [{"type": "begin repeat", "name": g + "_r", "label": "R"}, {"type": "text", "name": g + "_src", "label": "Q"},
+                        {"type": "end repeat"}]
+    if v == "after-text":
+        block.append({"type": "text", "name": g + "_t", "label": "T"})
+    block += [sel, {"type": "end group"}]
+    f["survey"][p:p] = block
+    if v == "from-repeat" and in_repeat(f["survey"], p):
+        return None, None
+    return f, {"row": p + block.index(sel) + 2, "cites": ["table-list"], "model": False}
+
+
+def a_osm_unlisted(form, p):
+    f = insert_row(form, p, {"type": "osm nolist_osm", "name": fresh(form, "osmq"), "label": "O"})
+    f["osm"] = [{"list_name": "buildings", "name": "building", "label": "B"}]
+    return f, {"row": p + 2, "cites": ["nolist_osm"], "model": False}
+
+
 def a_entities_no_dataset(form, _):
     f = clone(form)
     f["entities"] = [{"label": "concat('a', 'b')"}]
@@ -1091,7 +1136,7 @@ CATALOGUE = [
     ("dup_sibling", s_dup_sibling, a_dup_sibling),
     ("dup_section", s_dup_section, a_dup_section),
     ("section_named_form", s_section_named_form, a_section_named_form),
-    ("unknown_ref", ref_sites, a_unknown_ref),
+    ("unknown_ref", s_unknown_ref, a_unknown_ref),
     ("ambiguous_ref", s_ambiguous_ref, a_ambiguous_ref),
     ("ambiguous_mixed", s_ambiguous_mixed, a_ambiguous_mixed),
     ("malformed_ref", s_malformed_ref, a_malformed_ref),
@@ -1135,6 +1180,8 @@ CATALOGUE = [
     ("save_to_existing_deep", s_save_to_existing_deep, a_save_to_existing_deep),
     ("empty_section", s_empty_section, a_empty_section),
     ("entities_no_dataset", s_once, a_entities_no_dataset),
+    ("table_list_unlisted", s_table_list_unlisted, a_table_list_unlisted),
+    ("osm_unlisted", positions, a_osm_unlisted),
     ("search_no_choices", s_search_no_choices, a_search_no_choices),
     ("bad_trigger", s_bad_trigger, a_bad_trigger),
     ("xml_names", s_xml_names, a_xml_names),
